@@ -23,8 +23,7 @@ ID = 'C13'
 LEVEL = 'exploration'
 BUDGET = {'quick': 80, 'thorough': 780}
 RULE = ('seeded histories of 2-10 gradings over %d instructor scripts x %d submissions x {standard, blockpy}, repeats forced, ~30 %% of '
-        'gradings aborted by an exception injected at the k-th instructor-script LINE event (+ d events into pedal code beneath it) or '
-        'inside environment setup; each position compared with the same grading run first in a pristine forked child; '
+        'gradings aborted by an exception injected at the k-th instructor-script LINE event; each position compared with the same grading run first in a pristine forked child; '
         'distinct_nontrivial = distinct (history digest) of histories with >= 2 gradings of which at least one follows a grading that '
         'used a different script' % (len(grd_pool.SCRIPTS), len(grd_pool.SUBMISSIONS)))
 ASSUMPTIONS = [
@@ -68,11 +67,13 @@ def build(seed, tier):
             g = {'script_name': r.choice(scripts), 'submission_name': r.choice(subs),
                  'env': r.choice(['standard', 'standard', 'blockpy']), 'rng': r.randint(1, 10 ** 6)}
             if rf.random() < 0.3:
-                if rf.random() < 0.15:
-                    g['fault'] = {'kind': 'sync_pedal', 'k': rf.randint(1, 1500), 'exc': rf.choice(CRASH_CLASSES)}
-                else:
-                    g['fault'] = {'kind': 'sync_script2', 'kI': rf.randint(1, 9), 'dP': rf.choice([0, 0, 0, 1, 5, 25, 120, 400]),
-                                  'k': 10 ** 9, 'exc': rf.choice(CRASH_CLASSES)}
+                # A crashed grading = an instructor script that dies AT ONE OF ITS OWN LINES (its own bug, or an
+                # exception a pedal call raised back to it).  Crash points "d events into pedal code" were tried and
+                # withdrawn: they tear pedal's own bookkeeping (e.g. Feedback.override between setattr and the
+                # registration for restore) in ways no script failure can, and their position is a function of event
+                # counts, not of the (script, submission) pair -- see DESIGN.md section 9.
+                g['fault'] = {'kind': 'sync_script2', 'kI': rf.randint(1, 12), 'dP': 0, 'k': 10 ** 9,
+                              'exc': rf.choice(CRASH_CLASSES)}
         gradings.append(g)
     return {'gradings': gradings, 'meta': {'seed': seed}}
 
@@ -233,5 +234,4 @@ def evidence_extra(agg):
 
 
 def probe_warnings(agg):
-    return ['%s never hit' % p for p in ('probe:crash_landed_in_pedal_code_beneath_script', 'probe:crash_escaped_run_ics_bundle',
-                                         'probe:history_contains_repeat') if agg.counters.get(p, 0) == 0]
+    return ['%s never hit' % p for p in ('fault_fired:script_crash', 'probe:history_contains_repeat') if agg.counters.get(p, 0) == 0]
